@@ -3,7 +3,10 @@
 A random history of 1-12 public queries is run on ONE automaton instance.  Every answer is compared
 (a) with the same query on a fresh copy of the automaton (history independence, observed on the
 implementation alone) and (b) with the extracted state-machine model of the object
-(coq/Model/Cache.v: step along the same history) and the stateless C13 models (pure)."""
+(coq/Model/Cache.v: step along the same history) and the stateless C13 models (pure).
+NFA histories the same way against coq/Model/NFACache.v (op 2 of property 20): the memo of
+`_get_lambda_closures` per instance, the answers along the history, the answers with every table
+recomputed, and the answers of the C01 / C09 / C07 / C08 models."""
 from __future__ import annotations
 
 import itertools
@@ -16,7 +19,9 @@ from props.common import load_def, mk_dfa, mk_nfa, outcome
 RULE = ("histories of 1-12 queries on one DFA instance (count/words for lengths 0..K incl. shorter-after-longer, "
         "words_of_length and iteration and successors abandoned after n items, random_word with seed, cardinality, len, "
         "min/max length, isempty, isfinite, clear_cache, interleaved accepts_input / == / <= / successor(s) / predecessor(s) with default and reversed symbol order) and on one NFA "
-        "instance (accepts_input, partially consumed read_input_stepwise, ==, DFA.from_nfa, eliminate_lambda); DFAs from "
+        "instance (accepts_input, partially consumed read_input_stepwise, ==, DFA.from_nfa, eliminate_lambda, reverse; compared with a fresh "
+        "copy AND with the memo model of coq/Model/NFACache.v: answers along the history, and cached_method's lru_cache in the instance's "
+        "__dict__ - filled or not after every query, its table after the history); DFAs from "
         "the C13 generators (random cyclic, acyclic finite-language, empty); one DFA history in five is run a second time "
         "on an instance built under allow_mutable_automata = True (plain dicts and sets kept); distinct = distinct (canonical automaton, "
         "history); non-trivial = history has >= 3 queries of which >= 2 touch a cache or a memo")
@@ -298,21 +303,57 @@ def nfa_canon(x):
     return x
 
 
-def run_nfa_query(n, q, others):
+def raw_nfa_query(n, q, others):
+    """One query on instance n -> outcome holding the object the call returned."""
     from automata.fa.dfa import DFA
     kind = q[0]
     if kind == "accepts":
         return outcome(lambda: n.accepts_input(q[1]))[:2]
     if kind == "stepwise":
-        return outcome(lambda: nfa_canon(list(itertools.islice(n.read_input_stepwise(q[1]), q[2]))))[:2]
+        return outcome(lambda: list(itertools.islice(n.read_input_stepwise(q[1]), q[2])))[:2]
     if kind == "eq":
         return outcome(lambda: n == others[q[1]])[:2]
     if kind == "from_nfa":
-        return outcome(lambda: nfa_canon(DFA.from_nfa(n, retain_names=q[1], minify=q[2])))[:2]
+        return outcome(lambda: DFA.from_nfa(n, retain_names=q[1], minify=q[2]))[:2]
     if kind == "elim":
-        return outcome(lambda: nfa_canon(n.eliminate_lambda()))[:2]
+        return outcome(lambda: n.eliminate_lambda())[:2]
     if kind == "reverse":
-        return outcome(lambda: nfa_canon(n.reverse()))[:2]
+        return outcome(lambda: n.reverse())[:2]
+    raise ValueError(kind)
+
+
+def memo_of(n):
+    """The lru_cache cached_method keeps in the instance's __dict__, read without creating or filling it:
+    None when empty, else the stored table."""
+    m = n.__dict__.get("_get_lambda_closures")
+    if m is None or m.cache_info().currsize == 0:
+        return None
+    return m()      # a hit: returns the stored object, changes nothing
+
+
+def canon_outcome(r):
+    return (r[0], nfa_canon(r[1])) if r[0] == "ok" else r
+
+
+def run_nfa_query(n, q, others):
+    return canon_outcome(raw_nfa_query(n, q, others))
+
+
+def wire_nfa_query(q, sy):
+    """Query on instance 0 of the pool [the NFA under test, others...] (coq/Model/D20.v dec_nquery)."""
+    kind = q[0]
+    if kind == "accepts":
+        return [1, 0, sy.word(q[1])]
+    if kind == "stepwise":
+        return [2, 0, sy.word(q[1]), q[2]]
+    if kind == "eq":
+        return [3, 0, 1 + q[1]]
+    if kind == "from_nfa":
+        return [4, 0, bool(q[2]), bool(q[1])]
+    if kind == "elim":
+        return [5, 0]
+    if kind == "reverse":
+        return [6, 0]
     raise ValueError(kind)
 
 
@@ -337,30 +378,118 @@ def rand_nfa_history(rng, ndef, nothers):
 
 
 def check_nfa_history(ctx, ndef, hist, other_defs, tag):
+    """Every answer on the used instance is compared (a) with a fresh copy (implementation alone) and (b) with the
+    memo model (coq/Model/NFACache.v through op 2 of property 20): the model's answers along the same history on the
+    same pool of instances, which must also equal the model's from-scratch answers and the C01/C09/C07/C08 models.
+    Booleans, yielded state sets and error kinds are compared exactly; automata through the verified comparators
+    (property 0) plus the state count."""
     from automata.fa.dfa import DFA
     n = mk_nfa(ndef)
     others = [mk_nfa(o) for o in other_defs]
-    problems = []
+    problems, confirmed = [], False
+    st = enc.Renum(enc.nfa_names(n))
+    sy = enc.SymMap(n.input_symbols)
+    raws, filled = [], []
     for i, q in enumerate(hist):
-        got = run_nfa_query(n, q, others)
+        raw = raw_nfa_query(n, q, others)
+        got = canon_outcome(raw)
         fresh = run_nfa_query(mk_nfa(ndef), q, others)
         if got != fresh:
             problems.append(f"query #{i} {q}: {got!r:.200} on the used instance, {fresh!r:.200} on a fresh copy")
+            confirmed = True
+        raws.append(raw)
+        filled.append([memo_of(x) is not None for x in [n] + others])
         ctx.tally("nfa_q_" + q[0])
+    # the memo model on the same pool: instance 0 = the NFA under test, 1.. = the operands of ==
+    same_sigma = [set(o.input_symbols) == set(n.input_symbols) for o in others]
+    pool = [enc.enc_nfa(n, st, sy)] + [enc.enc_nfa(o, None, sy if same else None) for o, same in zip(others, same_sigma)]
+    wq = [wire_nfa_query(q, sy) for q in hist]
+    ans = ctx.driver.batch([(20, 2, enc.tree([pool, wq]))])[0]
+    valids, stepped, pure, spec, memos, filled_model = ans
+    if not all(valids):
+        problems.append(f"the model's validity predicate rejects a definition of the pool: {valids}")
+    # the memo itself (cached_method's lru_cache in the instance's __dict__): filled exactly when the model says so
+    # after every query, and at the end it holds the model's table
+    for i, (fi, fm) in enumerate(zip(filled, filled_model)):
+        if [bool(x) for x in fm] != fi:
+            problems.append(f"after query #{i} {hist[i]}: memos filled {fi} in the implementation, {fm} in the model")
+            break
+    sts = [st] + [enc.Renum(enc.nfa_names(o)) for o in others]
+    for k, (x, xs, mm) in enumerate(zip([n] + others, sts, memos)):
+        tbl = memo_of(x)
+        got_tbl = None if tbl is None else sorted([xs(q), sorted(xs(t) for t in c)] for q, c in tbl.items())
+        want_tbl = sorted(mm[0]) if mm else None
+        if got_tbl != want_tbl:
+            problems.append(f"instance {k}: cached closure table {got_tbl} after the history, the model's memo holds {want_tbl}")
+    if any(memo_of(x) is not None for x in [n] + others):
+        ctx.tally("nfa_memo_filled_and_compared")
+    items, metas = [], []
+    for i, (q, raw, ms, mp, msp) in enumerate(zip(hist, raws, stepped, pure, spec)):
+        if ms != mp:
+            problems.append(f"query #{i} {q}: model answer along the history {ms!r:.200} differs from its from-scratch answer {mp!r:.200}")
+        if mp != msp:
+            problems.append(f"query #{i} {q}: memo model {mp!r:.200} differs from the stateless C01/C09/C07/C08 model {msp!r:.200}")
+        kind = q[0]
+        if ms[0] == 0:
+            if kind == "eq" and ms[1] == enc.MISMATCH and not same_sigma[q[1]]:
+                # different alphabets: __eq__ returns NotImplemented (Python then answers False); C09's row
+                if raw != ("ok", False):
+                    problems.append(f"query #{i} {q}: == across alphabets answered {raw!r:.100}")
+                continue
+            if raw != ("err", ms[1]):
+                problems.append(f"query #{i} {q}: implementation {canon_outcome(raw)!r:.200}, model error {ms[1]}")
+            continue
+        if raw[0] != "ok":
+            problems.append(f"query #{i} {q}: implementation raised {raw!r:.100}, model answers {ms!r:.200}")
+            continue
+        val = raw[1]
+        if kind in ("accepts", "eq"):
+            if ms != [1, 1 if val else 0] or not isinstance(val, bool):
+                problems.append(f"query #{i} {q}: implementation {val!r}, model {ms}")
+        elif kind == "stepwise":
+            got_sets = [sorted(st(x) for x in cfg) for cfg in val]
+            if ms != [2, got_sets]:
+                problems.append(f"query #{i} {q}: implementation yields {got_sets}, model {ms}")
+        elif kind == "from_nfa":
+            items.append((0, 1, enc.tree([enc.enc_dfa(val, None, sy), ms[1]])))
+            metas.append((i, q, val, ms[1]))
+        else:
+            items.append((0, 2, enc.tree([enc.enc_nfa(val, None, sy), ms[1]])))
+            metas.append((i, q, val, ms[1]))
     # after the whole history: determinisation still has the NFA's language (verified comparator)
-    st = enc.Renum(enc.nfa_names(n))
-    sy = enc.SymMap(n.input_symbols)
     dd = DFA.from_nfa(n)
-    a = ctx.driver.batch([(0, 3, enc.tree([enc.enc_nfa(n, st, sy), enc.enc_dfa(dd, None, sy)]))])[0]
+    items.append((0, 3, enc.tree([pool[0], enc.enc_dfa(dd, None, sy)])))
+    cmp_ans = ctx.driver.batch(items)
+    for (i, q, val, mtree), a in zip(metas, cmp_ans):
+        if q[0] == "from_nfa":
+            va, vb, size_impl, size_model, diff = a
+            # minify=True: the minimum for the result's own kind (C05/C07): the model's minimal DFA is partial
+            want = size_model + (1 if (q[2] and not val.allow_partial and mtree[5]) else 0)
+        else:
+            va, vb, diff = a
+            size_impl, want = len(val.states), len(mtree[0])
+        if not va or not vb:
+            problems.append(f"query #{i} {q}: result not valid (implementation {va}, model {vb})")
+        if diff != [1, []]:
+            w = sy.unword(diff[1][0]) if diff[0] == 1 and diff[1] else None
+            problems.append(f"query #{i} {q}: the implementation's result and the model's differ in language: {diff}, word {w!r}")
+            if w is not None and val.accepts_input(w) != mk_nfa(ndef).accepts_input(w[::-1] if q[0] == "reverse" else w):
+                confirmed = True    # the result disagrees with its own source on that word (implementation alone)
+        if size_impl != want:
+            problems.append(f"query #{i} {q}: the implementation's result has {size_impl} states, the model's {want}")
+    a = cmp_ans[-1]
     if a[0] != 1 or a[1] != 1 or a[2] != [1, []]:
         w = sy.unword(a[2][1][0]) if a[2][0] == 1 and a[2][1] else None
         problems.append(f"after the history DFA.from_nfa(nfa) differs from the NFA: comparator {a}, word {w!r}")
-    ctx.case(("nfa", enc.tree(enc.enc_nfa(n, st, sy)), repr(hist)), nontrivial=len(hist) >= 3,
+    touching = sum(1 for q in hist if q[0] != "reverse" and not (q[0] == "stepwise" and q[2] == 0))
+    if touching >= 2:
+        ctx.tally("nfa_memo_consulted_after_filled")
+    ctx.case(("nfa", enc.tree(pool[0]), repr(hist)), nontrivial=len(hist) >= 3,
              sample={"nfa": repr(ndef), "history": hist})
     if problems:
-        ctx.violation("NFA answers depend on the call history: " + "; ".join(problems)[:1500],
+        ctx.violation("NFA answers depend on the call history / disagree with the memo model: " + "; ".join(problems)[:1500],
                       {"kind": "nfa_history", "def": repr(ndef), "history": hist, "others": [repr(o) for o in other_defs],
-                       "problems": problems, "tag": tag}, confirmed=True)
+                       "problems": problems, "tag": tag}, confirmed=confirmed)
 
 
 # ---------------------------------------------------------------- fixed corner histories
